@@ -264,6 +264,17 @@ func randomGossip(seed int64, nNodes int, faults bool, stableIds bool) (ev []map
 			case st.run == "up" && f < 6:
 				s.leave(n)
 				act("leave %s", n)
+			case f < 8:
+				// isolate the node completely: everything sent to it or by it while the cut lasts is lost
+				for _, o := range names {
+					if o != n {
+						s.cut[pairKey(n, o)] = true
+					}
+				}
+				act("isolate %s", n)
+				if class == "join" {
+					class = "partition"
+				}
 			default:
 				o := names[rng.Intn(nNodes)]
 				if o != n {
@@ -409,6 +420,43 @@ func checkC18(c *core.Ctx) {
 		c.Add("evaluations", 1)
 		classes[class]++
 		traces = append(traces, &Trace{Events: ev, Class: class, Name: fmt.Sprintf("random#%d", i), Scenario: sc})
+	}
+	// directed: a running node is cut off while others join, then the partition heals
+	for i := 0; i < core.Pick(c, 12, 60); i++ {
+		nn := 3 + i%3
+		var names []string
+		for k := 1; k <= nn; k++ {
+			names = append(names, fmt.Sprintf("n%d", k))
+		}
+		rng := rand.New(rand.NewSource(c.Seed*77 + int64(i)))
+		s := newGsim(names, names[:1], true)
+		s.launch("n1")
+		early := 1 + rng.Intn(nn-2) // nodes n2..n(1+early) join before the partition
+		for k := 2; k <= 1+early; k++ {
+			s.launch(names[k-1])
+			s.join(names[k-1], "n1")
+		}
+		for r := 0; r < 2; r++ {
+			s.round(rng.Intn)
+		}
+		victim := names[1+rng.Intn(early)] // a running non-seed node
+		for _, o := range names {
+			if o != victim {
+				s.cut[pairKey(victim, o)] = true
+			}
+		}
+		for k := 2 + early; k <= nn; k++ {
+			s.launch(names[k-1])
+			s.join(names[k-1], "n1")
+		}
+		for r := 0; r < 1+rng.Intn(3); r++ {
+			s.round(rng.Intn)
+		}
+		s.finish(rng) // heals, settles, probes
+		c.Add("evaluations", 1)
+		classes["isolated-during-join"]++
+		traces = append(traces, &Trace{Events: s.events, Class: "isolated-during-join", Name: fmt.Sprintf("isolated#%d", i),
+			Scenario: map[string]any{"nodes": names, "seeds": names[:1], "joined_before": early, "isolated": victim, "seed": c.Seed*77 + int64(i)}})
 	}
 	// failure detection on (the default configuration has it on with 40 s): healthy clusters, no faults at all
 	for i := 0; i < core.Pick(c, 4, 12); i++ {
